@@ -1,4 +1,5 @@
 import Astisub.Model.Types
+import Astisub.Model.Graph
 
 /-!
 # Proto — the line protocol shared by the Go harness and the Lean driver
@@ -96,6 +97,76 @@ def encItems (xs : List Item) : String :=
 /-- split a token list at the first `|` -/
 def splitBar (toks : List String) : List String × List String :=
   (toks.takeWhile (· ≠ "|"), (toks.dropWhile (· ≠ "|")).drop 1)
+
+end Proto
+end Astisub
+
+namespace Astisub
+namespace Proto
+
+/-! ## graphs (regions, styles, references) -/
+
+def decChain (s : String) : List String := if s = "-" then [] else s.splitOn ">"
+def encChain (c : List String) : String := if c.isEmpty then "-" else ">".intercalate c
+
+/-- `style,region,run;run;…` -/
+def decGItem (tok : String) : Option GItem :=
+  match tok.splitOn "," with
+  | [s, r, runs] =>
+    some { style := decChain s, region := if r = "-" then none else some r,
+           runs := if runs = "" then [] else (runs.splitOn ";").map decChain }
+  | _ => none
+
+def encGItem (it : GItem) : String :=
+  s!"{encChain it.style},{it.region.getD "-"},{";".intercalate (it.runs.map encChain)}"
+
+/-- `key=id:chain:tag` -/
+def decDef (tok : String) : Option (String × String × List String × Nat) :=
+  match tok.splitOn "=" with
+  | [k, rest] =>
+    match rest.splitOn ":" with
+    | [id, ch, tag] => match tag.toNat? with
+      | some t => some (k, id, decChain ch, t)
+      | none => none
+    | _ => none
+  | _ => none
+
+def takeN {α} (f : String → Option α) : List String → Option (List α × List String)
+  | [] => none
+  | n :: rest =>
+    match n.toNat? with
+    | none => none
+    | some n =>
+      if rest.length < n then none else
+      match mapM? f (rest.take n) with
+      | some xs => some (xs, rest.drop n)
+      | none => none
+
+def decGraph (toks : List String) : Option (Graph × List String) :=
+  match takeN decGItem toks with
+  | none => none
+  | some (items, r1) =>
+    match takeN decDef r1 with
+    | none => none
+    | some (regs, r2) =>
+      match takeN decDef r2 with
+      | none => none
+      | some (stys, r3) =>
+        some ({ items := items,
+                regions := regs.map fun (k, id, ch, t) => (k, { id := id, style := ch, tag := t }),
+                styles := stys.map fun (k, id, ch, t) => (k, { id := id, parent := ch, tag := t }) }, r3)
+
+def sortByKey {α} (l : List (String × α)) : List (String × α) :=
+  l.mergeSort (fun a b => decide (a.1 ≤ b.1))
+
+/-- canonical print: maps sorted by key -/
+def encGraph (g : Graph) : String :=
+  let its := toString g.items.length :: g.items.map encGItem
+  let regs := sortByKey g.regions
+  let stys := sortByKey g.styles
+  let rs := toString regs.length :: regs.map fun (k, d) => s!"{k}={d.id}:{encChain d.style}:{d.tag}"
+  let ss := toString stys.length :: stys.map fun (k, d) => s!"{k}={d.id}:{encChain d.parent}:{d.tag}"
+  " ".intercalate (its ++ rs ++ ss)
 
 end Proto
 end Astisub
